@@ -1,3 +1,4 @@
+import HsVerif.Proofs.ReplicaLive
 import HsVerif.Model.Replica
 import HsVerif.Proofs.CertComplete
 import HsVerif.Props.C02
@@ -175,5 +176,26 @@ theorem tc_verifies (E : CertEnv) (v : Nat) (l : List TimeoutMsg)
     · unfold verifyTC
       have hlt : ¬ sg.len < E.cfg.quorum := by rw [h3]; simp; omega
       simp [hv0, hlt, h2']
+
+open HsVerif.Proofs in
+/-- a sync info that carries just a verifying timeout certificate is accepted with that
+certificate's view, under both timeout rules -/
+theorem tc_accepted (k : Keys) (c : RCfg) (s : RState) (tc : TC)
+    (h : verifyTC (env k c s) tc = true) : Accepts k c { qc := none, tc := some tc, agg := none } s tc.view := by
+  refine ⟨none, true, ?_⟩
+  by_cases hc : c.agg = true
+  · simp [verifySyncInfo, verifyTCM, hc, h, StateT.run, pure, bind, StateT.bind, StateT.pure, get, getThe, MonadStateOf.get, StateT.get]
+  · simp [verifySyncInfo, verifyTCM, hc, h, StateT.run, pure, bind, StateT.bind, StateT.pure, get, getThe, MonadStateOf.get, StateT.get]
+
+open HsVerif.Proofs in
+/-- **The certificate moves a replica that is still in the timed-out view (or behind it) on by one
+view**: a verifying TC for view `v ≥` the replica's view makes `advanceView` end in the next view. -/
+theorem tc_moves (k : Keys) (c : RCfg) (s : RState) (tc : TC)
+    (h : verifyTC (env k c s) tc = true) (hv : s.view ≤ tc.view) :
+    ((advanceView k c { qc := none, tc := some tc, agg := none }).run s).2.view = s.view + 1 := by
+  have := run_res_of_triple (advanceView k c { qc := none, tc := some tc, agg := none })
+    (fun s' => s'.view = s.view ∧ Accepts k c { qc := none, tc := some tc, agg := none } s' tc.view)
+    (fun _ s' => s'.view = s.view + 1) (advanceView_progress k c _ s.view tc.view hv) s ⟨rfl, tc_accepted k c s tc h⟩
+  exact this
 
 end HsVerif.Props.C08
